@@ -10,7 +10,11 @@ pub mod spec;
 pub mod models;
 #[cfg(kani)]
 pub mod extm;
+#[cfg(kani)]
+pub mod dmodels;
 
+#[cfg(all(kani, feature = "c05"))]
+pub mod c05;
 #[cfg(all(kani, feature = "c06"))]
 pub mod c06;
 #[cfg(all(kani, feature = "c09"))]
@@ -21,6 +25,8 @@ pub mod c11;
 pub mod c15;
 #[cfg(all(kani, feature = "c18"))]
 pub mod c18;
+#[cfg(all(kani, feature = "c12"))]
+pub mod c12;
 #[cfg(all(kani, feature = "c13"))]
 pub mod c13;
 #[cfg(all(kani, feature = "c14"))]
